@@ -1,17 +1,16 @@
 #!/bin/sh
-# collect_seed.sh <PROP> <name>: copy a sub-agent's deliverables from /tmp/seed/wt-<PROP> into /verif/seeded/<PROP>-<name>/
+# collect_seed.sh <PROP> <name> [worktree]: copy a sub-agent's deliverables from /tmp/seed/wt-<PROP> into /verif/seeded/<PROP>-<name>/
 set -e
-P=$1; N=$2; W=/tmp/seed/wt-$P; D=/verif/seeded/$P-$N
+P=$1; N=$2; W=${3:-/tmp/seed/wt-$P}; D=/verif/seeded/$P-$N
 mkdir -p $D
 git -C $W diff -- pexpect > $D/patch.diff
 # the demonstration checked that pexpect came from the agent's worktree: make the root configurable
 sed "s#/tmp/seed/wt-$P#' + __import__('os').environ.get('PVMON_DEMO_ROOT', '/repo') + '#g" $W/demo.py > $D/demo.py.tmp || true
 cp $W/demo.py $D/demo.py
-python3 - "$D" "$P" <<'PY'
+python3 - "$D" "$P" "$W" <<'PY'
 import sys,re,os
-d,p=sys.argv[1],sys.argv[2]
+d,p,root=sys.argv[1],sys.argv[2],sys.argv[3]
 s=open(os.path.join(d,'demo.py')).read()
-root="/tmp/seed/wt-%s"%p
 # any literal occurrence of the worktree path becomes the configurable root
 s=s.replace('"%s"'%root, "__import__('os').environ.get('PVMON_DEMO_ROOT', '/repo')").replace("'%s'"%root, "__import__('os').environ.get('PVMON_DEMO_ROOT', '/repo')")
 s=s.replace(root, "/repo")
